@@ -83,12 +83,12 @@ instance (d : Bytes) : Decidable (SizeOk d) := by unfold SizeOk; exact inferInst
 
 example : SizeOk (#[0x5b, 0x82] : Bytes) := by decide
 
-/-- **Returned slices lie inside the table** (lexical layer of `slices_in_table`): from every reader
+/-- **Returned slices lie inside the table — lexical layer** (the decoders `slices_in_table` builds on): from every reader
 state inside the table, the `[]byte` built by `parseString`, by `parseNameString` and by
 `parseByteList` (for the two lengths the parser passes: `pkgEnd-offset` for a ByteList argument, and a
 declared Connection-buffer length that was checked against `pkgEnd`) starts and ends inside `d`;
 a successful `parseNameString` returns a slice that starts where the name started. -/
-theorem slices_in_table_partial (d : Bytes) (hd : SizeOk d) (r : Reader) (h : Inv d r) :
+theorem lex_slices_in_table (d : Bytes) (hd : SizeOk d) (r : Reader) (h : Inv d r) :
     wp (parseString d) (fun a r' => Inv d r' ∧ SliceIn d a.1) r ∧
     wp (parseNameString d) (fun a r' => Inv d r' ∧ SliceIn d a.1 ∧ (a.2 = .ok → a.1.data = some r.offset)) r ∧
     (∀ n, r.offset + n ≤ r.pkgEnd → wp (parseByteListRaw d n) (fun sl r' => Inv d r' ∧ SliceIn d sl) r) ∧
@@ -100,7 +100,7 @@ theorem slices_in_table_partial (d : Bytes) (hd : SizeOk d) (r : Reader) (h : In
 /-- what the parser stores: a value made from an in-table slice is in-table (a nil-data slice is
 stored as the empty slice, `runtime.convTslice`), and trimming a stored name to its last
 segment (`relocateNamedObjects`: `namepath[nameIndex:]`) keeps it in-table -/
-theorem stored_values_partial (d : Bytes) :
+theorem stored_values (d : Bytes) :
     (∀ s : Slice, SliceIn d s → ∀ off len, AmlParser.sliceVal s = .bytes off len → off + len ≤ d.size) ∧
     (∀ off len k, off + len ≤ d.size → k ≤ len → (off + k) + (len - k) ≤ d.size) := by
   constructor
@@ -153,6 +153,65 @@ theorem total_partial (d : Bytes) (r : Reader) (h : Inv d r) :
   exact ⟨fun n => f (safe_parseNumConstant d n), f (safe_parsePkgLength d), f (safe_parseString d),
     f (safe_parseNameString d), f (safe_nextOpcode d), f (safe_peekNextOpcode d),
     fun n => f (safe_parseByteListRaw d n)⟩
+
+/-- the invariant the staged theorems below are about: reader window inside the table and every
+`[]byte` value in the object pool inside the table (spelled out; `AmlParser.PInv` in the proofs) -/
+def ParserInv (d : Bytes) (s : AmlParser.PState) : Prop :=
+  (s.r.offset ≤ d.size ∧ s.r.pkgEnd ≤ d.size) ∧
+  ∀ (i : Nat) (o : Obj), s.tree.pool[i]? = some o → ∀ off len, o.value = .bytes off len → off + len ≤ d.size
+
+theorem parserInv_iff (d : Bytes) (s : AmlParser.PState) : ParserInv d s ↔ AmlParser.PInv d s := by
+  constructor
+  · intro h
+    refine ⟨h.1, ?_⟩
+    intro i o ho
+    cases hv : o.value with
+    | bytes off len => exact h.2 i o ho off len hv
+    | _ => trivial
+  · intro h
+    refine ⟨h.1, ?_⟩
+    intro i o ho off len hv
+    have := h.2 i o ho
+    rw [hv] at this; exact this
+
+/-- **Stage (a), first pass** — `parseObjectList` and everything it calls (`parseNextObject`,
+`parseObjectArgs`, `parseArgs`, `parseArg`, `parseSimpleArg`, `parseByteList`, `parseFieldElements`,
+`parseNamePathOrMethodCall`, `parseStrictTermArg`, `parseTarget`, the scope/pkgEnd stacks), in both
+parse modes, for every fuel: whenever it returns, the reader invariant holds and every stored slice
+lies inside the table. -/
+theorem first_pass_slices_in_table (d : Bytes) (hd : SizeOk d) (fuel n : Nat) (s : AmlParser.PState)
+    (hs : ParserInv d s) : ∀ res s', AmlParser.parseObjectList d fuel n s = .ok (res, s') → ParserInv d s' := by
+  intro res s' e
+  exact (parserInv_iff d s').mpr ((AmlParser.keeps_parseObjectList hd fuel n).run s ((parserInv_iff d s).mp hs) res s' e).1
+
+/-- **Stage (b), tree passes** — `connectNamedObjArgs`, `mergeScopeDirectives`, `relocateNamedObjects`
+(incl. the relocation that trims a stored name to its last segment) and the resolve loop
+(`resolveLoopPasses`): whenever they return, the invariant holds. -/
+theorem tree_passes_slices_in_table (d : Bytes) (fuel n : Nat) (s : AmlParser.PState) (hs : ParserInv d s) :
+    (∀ res s', AmlParser.connectNamedObjArgs d fuel 0 s = .ok (res, s') → ParserInv d s') ∧
+    (∀ res s', AmlParser.mergeScopeDirectives d fuel 0 s = .ok (res, s') → ParserInv d s') ∧
+    (∀ res s', AmlParser.relocateNamedObjects d fuel 0 s = .ok (res, s') → ParserInv d s') ∧
+    (∀ res s', AmlParser.resolveLoopPasses d fuel n s = .ok (res, s') → ParserInv d s') := by
+  have hs' := (parserInv_iff d s).mp hs
+  refine ⟨?_, ?_, ?_, ?_⟩ <;> intro res s' e <;> apply (parserInv_iff d s').mpr
+  · exact ((AmlParser.keeps_connectNamed (d := d) fuel).1 0).run s hs' res s' e |>.1
+  · exact ((AmlParser.keeps_merge (d := d) fuel).1 0).run s hs' res s' e |>.1
+  · exact ((AmlParser.keeps_relocate (d := d) fuel).1 0).run s hs' res s' e |>.1
+  · exact (AmlParser.keeps_resolveLoopPasses (d := d) fuel n).run s hs' res s' e |>.1
+
+/-- **Stage (c), deferred blocks and method calls** — `parseDeferredBlocks` (strict re-parse of
+Buffer/While/BankField bodies), `resolveMethodCalls`, `connectNonNamedObjArgs`,
+`attachSiblingsAsArgs`: whenever they return, the invariant holds. -/
+theorem deferred_and_calls_slices_in_table (d : Bytes) (hd : SizeOk d) (fuel : Nat) (s : AmlParser.PState)
+    (hs : ParserInv d s) :
+    (∀ res s', AmlParser.parseDeferredBlocks d fuel fuel 0 s = .ok (res, s') → ParserInv d s') ∧
+    (∀ res s', AmlParser.resolveMethodCalls d fuel 0 s = .ok (res, s') → ParserInv d s') ∧
+    (∀ res s', AmlParser.connectNonNamedObjArgs fuel 0 s = .ok (res, s') → ParserInv d s') := by
+  have hs' := (parserInv_iff d s).mp hs
+  refine ⟨?_, ?_, ?_⟩ <;> intro res s' e <;> apply (parserInv_iff d s').mpr
+  · exact ((AmlParser.keeps_deferred hd fuel fuel).1 0).run s hs' res s' e |>.1
+  · exact ((AmlParser.keeps_resolve (d := d) fuel).1 0).run s hs' res s' e |>.1
+  · exact ((AmlParser.keeps_connectNonNamed (d := d) fuel).1 0).run s hs' res s' e |>.1
 
 /-- **Every stored slice lies inside the table — whole parser** (`C12.slices_in_table`, all passes:
 `parseObjectList`, `connectNamedObjArgs`, the `mergeScopeDirectives`/`relocateNamedObjects` loop,
